@@ -226,12 +226,27 @@ Section Encoder.
     | S n' => let '(o, b', src') := body_poll c b src in o :: body_trace c n' b' src'
     end.
 
+  (* Body::is_end_stream for EncodeBody: self.state.is_end_stream *)
+  Definition body_is_end_stream (b : body_state) : bool := b_end b.
+
+  (* n consecutive polls, each with what is_end_stream() answers right after it *)
+  Fixpoint body_trace_es (c : cfg) (n : nat) (b : body_state) (src : list sevent)
+    : list (body_out * bool) :=
+    match n with
+    | O => []
+    | S n' => let '(o, b', src') := body_poll c b src in
+              (o, body_is_end_stream b') :: body_trace_es c n' b' src'
+    end.
+
   (* enough polls to exhaust any schedule (proved: a None is reached within this budget) *)
   Definition poll_budget (src : list sevent) : nat := (length src + 3)%nat.
 
   (* "polled to exhaustion and [extra] more times" *)
   Definition run_body (c : cfg) (r : role) (src : list sevent) (extra : nat) : list body_out :=
     body_trace c (poll_budget src + extra) (body_init r) src.
+
+  Definition run_body_es (c : cfg) (r : role) (src : list sevent) (extra : nat) : list (body_out * bool) :=
+    body_trace_es c (poll_budget src + extra) (body_init r) src.
 
   Definition items_of (src : list sevent) : list item :=
     flat_map (fun e => match e with SPending => [] | SItem i => [i] end) src.
@@ -292,16 +307,21 @@ Definition pq_path (s : list N) : list N :=
 
 Record req_head := mkReq { rq_method : list N; rq_version : N; rq_uri : uri; rq_headers : hm }.
 
+(* the request target GrpcConfig::prepare_request builds (after fix ab6a0ca8, F-C03b):
+     match origin.path_and_query { Some(pnq) if pnq.path() != "/" => format!("{}{}", pnq.path(), path),
+                                   _ => path } *)
+Definition request_target (origin : uri) (path : list N) : list N :=
+  match u_pq origin with
+  | Some pnq => if bytes_eqb (pq_path pnq) [47] then path else pq_path pnq ++ path
+  | None => path
+  end.
+
 (* GrpcConfig::prepare_request; None = panic ("path_and_query only is valid Uri": Uri::from_parts
    refuses scheme without authority and authority + path without scheme).  [md] is the request
    metadata, [path] the method's PathAndQuery. *)
 Definition prepare_request (origin : uri) (send : option cenc) (accept : list cenc)
            (md : hm) (path : list N) : option req_head :=
-  let pq :=
-    match u_pq origin with
-    | Some pnq => if bytes_eqb pnq [47] then path else pq_path pnq ++ path
-    | None => path
-    end in
+  let pq := request_target origin path in
   let parts := mkUri (u_scheme origin) (u_authority origin) (Some pq) in
   let uri_ok :=
     match u_scheme parts, u_authority parts with
@@ -320,6 +340,38 @@ Definition prepare_request (origin : uri) (send : option cenc) (accept : list ce
               | None => h3
               end in
     Some (mkReq val_POST HTTP_2 parts h4).
+
+(* client::Grpc: GrpcConfig + what the codec's encoder says about buffers *)
+Record client := mkClient { cl_origin : uri; cl_send : option cenc; cl_accept : list cenc;
+                            cl_max : option N; cl_buffer_size : N; cl_yield_threshold : N }.
+
+(* client::Grpc::streaming (unary / client_streaming / server_streaming go through it): the body
+   is EncodeBody::new_client(encoder, source, send_compression_encodings,
+   max_encoding_message_size) - returned as its [cfg] -, the head is prepare_request's *)
+Definition client_call (cl : client) (md : hm) (path : list N) : option (req_head * cfg cenc) :=
+  let body := mkCfg (cl_send cl) false (cl_max cl) (cl_buffer_size cl) (cl_yield_threshold cl) in
+  match prepare_request (cl_origin cl) (cl_send cl) (cl_accept cl) md path with
+  | Some h => Some (h, body)
+  | None => None
+  end.
+
+(* ---- transport/channel/service: what a Channel puts in front of the connection ----
+   connection.rs: ServiceBuilder .layer_fn(AddOrigin(endpoint.origin or endpoint.uri))
+                                 .layer_fn(UserAgent(endpoint.user_agent)) ...
+   add_origin.rs: scheme and authority of the request target are REPLACED by the origin's (its
+   path is not used); an origin without scheme or authority makes every call fail (an Err, not
+   a panic).  user_agent.rs: user-agent := [custom ++ " "] ++ "tonic/<version>" (insert). *)
+Definition hdr_user_agent : list N := Eval vm_compute in bytes_of_string "user-agent".
+Inductive chan_res := ChErr | ChOk (r : req_head).
+Definition channel_request (origin : uri) (custom_ua : option (list N)) (tonic_ua : list N)
+           (r : req_head) : chan_res :=
+  match u_scheme origin, u_authority origin with
+  | Some sc, Some au =>
+      let ua := match custom_ua with Some c => c ++ [32] ++ tonic_ua | None => tonic_ua end in
+      ChOk (mkReq (rq_method r) (rq_version r) (mkUri (Some sc) (Some au) (u_pq (rq_uri r)))
+                  (hm_insert (rq_headers r) hdr_user_agent ua))
+  | _, _ => ChErr
+  end.
 
 (* rs_body = true: the body is EncodeBody::new_server(.., accept_encoding, override, max);
    false: Body::default(), no frames *)
@@ -344,6 +396,110 @@ Definition map_response (resp : hm + status) (accept_encoding : option cenc) : o
                 | None => h1
                 end in
       Some (mkResp 200 HTTP_2 h2 true)
+  end.
+
+(* ---- the server handler entry points: negotiation, early rejections, body configuration ---- *)
+Definition enc_of_name (t : list N) : option cenc :=
+  if bytes_eqb t (enc_name Gzip) then Some Gzip
+  else if bytes_eqb t (enc_name Deflate) then Some Deflate
+  else if bytes_eqb t (enc_name Zstd) then Some Zstd
+  else None.
+Definition enabled (l : list cenc) (e : cenc) : bool := existsb (cenc_eqb e) l.
+
+(* str::split(',') and str::trim on a header value (only space and tab can occur there) *)
+Fixpoint split_comma (l cur : list N) : list (list N) :=
+  match l with
+  | [] => [rev cur]
+  | c :: r => if c =? 44 then rev cur :: split_comma r [] else split_comma r (c :: cur)
+  end.
+Definition is_ws (b : N) : bool := (b =? 32) || (b =? 9).
+Fixpoint trim_start (l : list N) : list N :=
+  match l with c :: r => if is_ws c then trim_start r else l | [] => [] end.
+Definition trim (l : list N) : list N := rev (trim_start (rev (trim_start l))).
+(* HeaderValue::to_str *)
+Definition hv_is_str (v : list N) : bool := forallb (fun b => (b =? 9) || ((32 <=? b) && (b <? 127))) v.
+Fixpoint find_map_enabled (en : list cenc) (toks : list (list N)) : option cenc :=
+  match toks with
+  | [] => None
+  | t :: r => match enc_of_name (trim t) with
+              | Some e => if enabled en e then Some e else find_map_enabled en r
+              | None => find_map_enabled en r
+              end
+  end.
+(* CompressionEncoding::from_accept_encoding_header(request headers, send_compression_encodings) *)
+Definition from_accept_encoding_header (hdr : option (list N)) (en : list cenc) : option cenc :=
+  match en with
+  | [] => None
+  | _ => match hdr with
+         | None => None
+         | Some v => if hv_is_str v then find_map_enabled en (split_comma v []) else None
+         end
+  end.
+
+Definition msg_unsupported_a : list N := Eval vm_compute in bytes_of_string "Content is compressed with `".
+Definition msg_unsupported_b : list N := Eval vm_compute in bytes_of_string "` which isn't supported".
+Definition val_identity : list N := Eval vm_compute in bytes_of_string "identity".
+(* CompressionEncoding::from_encoding_header(request headers, accept_compression_encodings);
+   the value is shown as text (a non-UTF-8 value would be shown in Debug form: not modelled) *)
+Definition from_encoding_header (hdr : option (list N)) (en : list cenc) : status + option cenc :=
+  match hdr with
+  | None => inr None
+  | Some v =>
+      match enc_of_name v with
+      | Some e =>
+          if enabled en e then inr (Some e)
+          else inl (mkStatus Code_Unimplemented (msg_unsupported_a ++ v ++ msg_unsupported_b) []
+                      [(hdr_grpc_accept_encoding,
+                        match accept_value en with Some a => a | None => val_identity end)])
+      | None =>
+          if bytes_eqb v val_identity then inr None
+          else inl (mkStatus Code_Unimplemented (msg_unsupported_a ++ v ++ msg_unsupported_b) []
+                      [(hdr_grpc_accept_encoding,
+                        match accept_value en with Some a => a | None => val_identity end)])
+      end
+  end.
+
+Definition st_missing_request : status :=
+  mkStatus Code_Internal (bytes_of_string "Missing request message.") [] [].
+
+Inductive shape := ShUnary | ShClientStreaming | ShServerStreaming | ShStreaming.
+(* map_request_unary (reads the one request message) vs map_request_streaming *)
+Definition request_is_unary (sh : shape) : bool :=
+  match sh with ShUnary | ShServerStreaming => true | _ => false end.
+(* the handler returns one message (once(Ok(m))) and compression_override_from_response is read *)
+Definition response_is_unary (sh : shape) : bool :=
+  match sh with ShUnary | ShClientStreaming => true | _ => false end.
+
+Record server := mkServer { sv_send : list cenc; sv_accept : list cenc; sv_max : option N;
+                            sv_buffer_size : N; sv_yield_threshold : N }.
+(* what the handler answered: Ok(response metadata, the response carries
+   SingleMessageCompressionOverride::Disable) or Err(status) *)
+Inductive handler_res := HOk (md : hm) (disable : bool) | HErr (st : status).
+
+(* server::Grpc::{unary, client_streaming, server_streaming, streaming} up to the response:
+   [has_msg]: the request body carries a message (only map_request_unary looks).  Result: the
+   response head and, when there is a body, the configuration of its EncodeBody::new_server. *)
+Definition server_call (sv : server) (sh : shape) (req_headers : hm) (has_msg : bool)
+           (h : handler_res) : option (resp_head * option (cfg cenc)) :=
+  let accept_encoding :=
+    from_accept_encoding_header (hm_get req_headers hdr_grpc_accept_encoding) (sv_send sv) in
+  let reject st := match map_response (inr st) accept_encoding with
+                   | Some r => Some (r, None) | None => None end in
+  match from_encoding_header (hm_get req_headers hdr_grpc_encoding) (sv_accept sv) with
+  | inl st => reject st                         (* request_encoding_if_supported failed *)
+  | inr _ =>
+      if request_is_unary sh && negb has_msg then reject st_missing_request
+      else
+        match h with
+        | HErr st => reject st
+        | HOk md disable =>
+            let override := if response_is_unary sh then disable else false in
+            match map_response (inl md) accept_encoding with
+            | Some r => Some (r, Some (mkCfg accept_encoding override (sv_max sv)
+                                         (sv_buffer_size sv) (sv_yield_threshold sv)))
+            | None => None
+            end
+        end
   end.
 
 (* ------------------------------------------------------------------------------------------
@@ -399,30 +555,66 @@ Definition out_obs (o : body_out) : tr :=
   | BPanic => Nd [Nn 99]
   end.
 
-(* the poll results up to and including the first None, then [extra] more *)
-Fixpoint cut_after_none (extra : nat) (l : list body_out) : list body_out :=
+(* the poll results up to and including the first None, then [extra] more; each with the
+   is_end_stream() answer after it *)
+Fixpoint cut_after_none (extra : nat) (l : list (body_out * bool)) : list (body_out * bool) :=
   match l with
   | [] => []
-  | BNone :: r => BNone :: firstn extra r
-  | BPanic :: _ => [BPanic]
+  | (BNone, e) :: r => (BNone, e) :: firstn extra r
+  | (BPanic, e) :: _ => [(BPanic, e)]
   | o :: r => o :: cut_after_none extra r
   end.
+Definition out_es_obs (oe : body_out * bool) : tr := Nd [out_obs (fst oe); obool (snd oe)].
 
+(* is_end_stream() before the first poll, then the polls *)
 Definition obs_encode (tbl : list (list N * list N)) (c : cfg cenc) (r : role)
            (src : list (sevent (list N))) (extra : nat) : tr :=
-  Nd (map out_obs (cut_after_none extra
-        (run_body (list N) cenc ser_raw (compress_tbl tbl) c r src extra))).
+  Nd (obool (body_is_end_stream (body_init r)) ::
+      map out_es_obs (cut_after_none extra
+        (run_body_es (list N) cenc ser_raw (compress_tbl tbl) c r src extra))).
+(* Body::empty(): ended from the start, None to every poll *)
+Definition obs_empty_body (extra : nat) : tr :=
+  Nd (obool true :: repeat (Nd [Nd [Nn 1]; obool true]) (S extra)).
 
 Definition uri_obs (u : uri) : tr :=
   Nd [oopt Bs (u_scheme u); oopt Bs (u_authority u); oopt Bs (u_pq u)].
-Definition obs_request_head (origin : uri) (send : option cenc) (accept : list cenc)
-           (md : hm) (path : list N) : tr :=
-  match prepare_request origin send accept md path with
-  | None => Nd [Nn 99]
-  | Some r => Nd [Nn 1; Bs (rq_method r); Nn (rq_version r); uri_obs (rq_uri r); hm_canon (rq_headers r)]
+Definition req_head_obs (r : req_head) : tr :=
+  Nd [Nn 1; Bs (rq_method r); Nn (rq_version r); uri_obs (rq_uri r); hm_canon (rq_headers r)].
+Definition resp_head_obs (r : resp_head) : tr :=
+  Nd [Nn 1; Nn (rs_status r); Nn (rs_version r); hm_canon (rs_headers r); obool (rs_body r)].
+
+(* a client call: the head and the request body, the body configured by the model itself *)
+Definition obs_client_call (tbl : list (list N * list N)) (cl : client) (md : hm) (path : list N)
+           (src : list (sevent (list N))) (extra : nat) : tr :=
+  match client_call cl md path with
+  | None => Nd [Nd [Nn 99]]
+  | Some (h, c) => Nd [req_head_obs h; obs_encode tbl c Client src extra]
   end.
-Definition obs_response_head (resp : hm + status) (accept_encoding : option cenc) : tr :=
-  match map_response resp accept_encoding with
-  | None => Nd [Nn 99]
-  | Some r => Nd [Nn 1; Nn (rs_status r); Nn (rs_version r); hm_canon (rs_headers r); obool (rs_body r)]
+(* a server call: the head and the response body *)
+Definition obs_server_call (tbl : list (list N * list N)) (sv : server) (sh : shape)
+           (req_headers : hm) (has_msg : bool) (h : handler_res)
+           (src : list (sevent (list N))) (extra : nat) : tr :=
+  match server_call sv sh req_headers has_msg h with
+  | None => Nd [Nd [Nn 99]]
+  | Some (r, Some c) => Nd [resp_head_obs r; obs_encode tbl c Server src extra]
+  | Some (r, None) => Nd [resp_head_obs r; obs_empty_body extra]
+  end.
+
+(* a call through a real Channel, seen by an independent HTTP/2 peer: the head after AddOrigin and
+   UserAgent, all DATA bytes of the request body (the transport re-cuts them), trailers or not *)
+Definition obs_channel_call (tbl : list (list N * list N)) (cl : client) (ep_origin : uri)
+           (custom_ua : option (list N)) (tonic_ua : list N) (md : hm) (path : list N)
+           (src : list (sevent (list N))) : tr :=
+  match client_call cl md path with
+  | None => Nd [Nd [Nn 99]]
+  | Some (h, c) =>
+      match channel_request ep_origin custom_ua tonic_ua h with
+      | ChErr => Nd [Nd [Nn 96]]
+      | ChOk h' =>
+          let fs := frames_of (run_body (list N) cenc ser_raw (compress_tbl tbl) c Client src 0) in
+          Nd [req_head_obs h';
+              Nd (segs (runs (concat (datas_of fs))) []);
+              obool (existsb (fun f => match f with FTrailers _ => true | _ => false end) fs);
+              obool (existsb (fun f => match f with FErr _ => true | _ => false end) fs)]
+      end
   end.
